@@ -257,12 +257,29 @@ class _Real:
         return f"({self.n0} {_ty_sexp(self.case['ty'])} {self.case['ret']} ({' '.join(ops)}))"
 
 
+def _rs_summary(case, rep: str, r: "_Real") -> str:
+    """what `runScript` of the model must return for this script, read off the real run"""
+    if case["ret"]:
+        return "(rs -)"
+    if " err " in rep:
+        return "(rs err)"
+    reads = []
+    for it in rep.replace(") (s", ")\n(s").replace(") (g", ")\n(g").replace(") (loc", ")\n(loc").split("\n"):
+        if it.startswith("(g ok "):
+            t = it.split()
+            reads.append(f"({t[2]} {t[3]})")
+    n_ops = rep.count("(M ") + rep.count("(U ")
+    nxt = max(n.idx for n in r.h) + 1
+    return f"(rs {len(reads)} {nxt} {n_ops}{''.join(' ' + w for w in reads)})"
+
+
 def real_run(case):
     """-> (request line for the model, canonical reply of the real DFContainer)"""
     r = _Real(case)
     req = r.request()
     try:
         rep = r.run()
+        rep = rep + " " + _rs_summary(case, rep, r)
     except Exception as e:  # noqa: BLE001
         rep = f"exception:{type(e).__name__}:{e}"
     return req, rep, r
